@@ -1147,3 +1147,82 @@ def inline_family(prog, root):
 def inline_calls(prog, fb):
     """the calls of a body whose result is not handed to tokio::spawn (a future built by `f(x)` and spawned is not awaited here)"""
     return [(blk, c, t) for (blk, c, t) in fb.calls() if not _moved_into_spawn(fb, t["dest"][0])]
+
+
+TAKES = ("StreamExt::next", "StreamExt::try_next", "TryStreamExt::try_next", "Receiver::recv", "UnboundedReceiver::recv", "AsyncReadExt::read", "AsyncReadExt::read_buf", "AsyncReadExt::read_exact", "UdpSocket::recv_from", "UdpSocket::recv")
+GIVES = ("SinkExt::send", "SinkExt::feed", "SinkExt::send_all", "AsyncWriteExt::write_all", "AsyncWriteExt::write", "AsyncWriteExt::write_buf", "UdpSocket::send_to", "UdpSocket::send", "Sender::send")
+
+
+def select_arms_carrying_data(prog):
+    """`tokio::select!` polls its branch futures until ONE completes and drops the others. Inside a loop whose branch futures are created
+    afresh on every iteration, a branch that *takes* an item from a source (`next`, `recv`, `read`) and then awaits *giving* it to a sink
+    (`send`, `write_all`) loses that item whenever the other branch completes while it waits for the sink: the item was already taken out of
+    the source and lives only in the dropped future. (Single primitives - `next()`, `recv()`, `accept()`, `tick()` - are cancel-safe; a compound
+    future that carries data across an await is not.) Returns [(loop body, poll_fn term, arm callee name, take name, give name, where)]."""
+    out, n_sel = [], 0
+    for b in prog.prod_bodies():
+        for (blk, c, t) in b.calls():
+            if not c.target.endswith("future::poll_fn::poll_fn") or not t["args"]:
+                continue
+            lp = b.innermost_loop(blk)
+            if lp is None:
+                continue
+            n_sel += 1
+            p = op_place(t["args"][0])
+            if p is None:
+                continue
+            locs, calls, _ = b.slice_back([p[0]])
+            arms = []
+            for (cb_, cc, ct) in calls:
+                if cb_ not in lp[1]:
+                    continue            # a future made once before the loop and polled by reference is resumed, not re-created
+                tb = prog.body(cc.target)
+                if tb is not None and cc.target.startswith("octo_squirrel"):
+                    co = [fb for fb in prog.family(tb.root) if fb.defp != tb.defp and getattr(fb, "parent", None) == tb.defp]
+                    arms += [(cc, ct, x) for x in co]
+            for l_ in locs:
+                for d in b.defs().get(l_, []):
+                    if d[0] == "assign" and d[1] in lp[1] and d[3]["rv"]["k"] == "agg" and d[3]["rv"].get("ak") == "coroutine" and prog.body(d[3]["rv"].get("def")) is not None:
+                        arms.append((None, {"sp": d[3].get("sp")}, prog.body(d[3]["rv"]["def"])))
+            for (cc, ct, pb) in arms:
+                fb = prog.flat(pb.defp)
+                takes = [(x, y, z) for (x, y, z) in fb.calls() if y.name in TAKES]
+                for (gb, gc, gt) in fb.calls():
+                    if gc.name not in GIVES or len(gt["args"]) < 2:
+                        continue
+                    q = op_place(gt["args"][1])
+                    if q is None:
+                        continue
+                    _, gcalls, _ = fb.slice_back([q[0]])
+                    src = [y for (x, y, z) in gcalls if y.name in TAKES]
+                    if src and takes:
+                        out.append((b, t, (cc.name if cc is not None else "an async block"), src[0].name, gc.name, loc(ct["sp"]) if ct.get("sp") else loc(b.sp)))
+                        break
+    return out, n_sel
+
+
+def biased_selects(prog):
+    """`tokio::select!` starts polling its branches at a random one (`thread_rng_n`) unless it is `biased;`. A biased select in a loop that
+    serves several flows polls a later branch only when every earlier one is idle: a steady load on an early branch (replies queued for some
+    sessions) starves the later ones (datagrams of every other session) for as long as it lasts. Returns [(body, poll_fn term)] of biased
+    selects inside loops, and the number of selects in loops."""
+    out, n = [], 0
+    for b in prog.prod_bodies():
+        for (blk, c, t) in b.calls():
+            if not c.target.endswith("future::poll_fn::poll_fn") or not t["args"] or b.innermost_loop(blk) is None:
+                continue
+            p = op_place(t["args"][0])
+            clos = None
+            for l_ in (b.slice_back([p[0]], stop_call=lambda c_: True)[0] if p else set()):
+                for d in b.defs().get(l_, []):
+                    if d[0] == "assign" and d[3]["rv"]["k"] == "agg" and d[3]["rv"].get("ak") == "closure":
+                        clos = prog.body(d[3]["rv"].get("def"))
+            if clos is None:
+                continue
+            polls = [cc for (_, cc, _) in clos.calls() if cc.name == "Future::poll"]
+            if len(polls) < 2:
+                continue
+            n += 1
+            if not any(cc.target.endswith("thread_rng_n") for (_, cc, _) in clos.calls()):
+                out.append((b, t, len(polls)))
+    return out, n
